@@ -921,7 +921,13 @@ func genCase(r *vf.Rand, i int, thorough bool) Desc {
 		for k := 0; k < nf; k++ {
 			d.First = append(d.First, genOps(r.Split(), 1+r.Intn(4), 0, 0))
 		}
-		d.RunFirst = r.Chance(1, 3)
+		// evaluating a first program costs a throw-away child process (canary)
+		// besides the run itself: do it less often in the quick tier
+		if thorough {
+			d.RunFirst = r.Chance(1, 3)
+		} else {
+			d.RunFirst = r.Chance(1, 8)
+		}
 		d.Ops = genOps(r.Split(), n, nf, 0)
 	case mode < 5:
 		d.Ops = genOps(r.Split(), n, 0, 1)
@@ -953,8 +959,8 @@ func graphKey(o Obs) string {
 	return b.String()
 }
 
-// classify names the distribution bucket, the non-triviality key and, for the
-// known defects, the signature of what the observations show.
+// classify names the distribution bucket, the non-triviality key and, when the
+// observations show one of the two repaired defects again, its signature.
 func classify(d Desc, obs []Obs) (kind, nontriv, sig string) {
 	if len(obs) == 0 || obs[0].Err != 0 {
 		return "error", "", ""
@@ -1025,7 +1031,8 @@ func classify(d Desc, obs []Obs) (kind, nontriv, sig string) {
 	if len(o0.Tasks)-o0.NInit > o0.Nodes[len(o0.Nodes)-1].NShard {
 		nontriv = vf.Hash(graphKey(o0)) // more than one stage
 	}
-	// signatures of the known defects, from what was observed
+	// signatures of the two defects this check found (both repaired in /repo;
+	// the signatures stay so that a regression is recognised), from what was observed
 	var sigs []string
 	for _, t := range o0.Tasks[o0.NInit:] {
 		foreign := len(t.Slices) > 0
